@@ -173,6 +173,17 @@ def sweeps(tier):
                     cases.append({'t': 'pdu', 'layout': lay, 'history': [], 'pdu': specpdu.encode('req:23', {
                         'read_address': ra, 'read_quantity': rq, 'write_address': wa, 'registers': [0x1111 * (i + 1) for i in range(wq)]}).hex()})
     out.append(('fc23-read-range-x-write-range-around-block-end', cases, True))
+    # write quantities swept across every limit with consistent byte counts on a table large enough to hold them
+    cases = []
+    for q in list(range(1960, 1976)) + list(range(1996, 2004)) + [2040]:
+        cases.append({'t': 'pdu', 'layout': lay_big, 'history': [], 'pdu': specpdu.encode('req:15', {'address': 12, 'bits': [bool(i % 3) for i in range(q)]}).hex()})
+    for q in range(116, 128):
+        regs = [(i * 3 + 1) & 0xFFFF for i in range(q)]
+        cases.append({'t': 'pdu', 'layout': lay_big, 'history': [], 'pdu': specpdu.encode('req:16', {'address': 12, 'registers': regs}).hex()})
+        for rq in (1, 124, 125, 126):
+            cases.append({'t': 'pdu', 'layout': lay_big, 'history': [], 'pdu': specpdu.encode('req:23', {
+                'read_address': 20, 'read_quantity': rq, 'write_address': 300, 'registers': regs}).hex()})
+    out.append(('write-quantities-across-the-limits', cases, True))
     cases = [{'t': 'pdu', 'layout': lay, 'history': [], 'pdu': (bytes([fc]) + b'\x00\x0a\x00\x01').hex()} for fc in UNASSIGNED]
     out.append(('every-unassigned-function-code', cases, True))
     return out
